@@ -98,8 +98,6 @@ def setup_engine(E):
     L[(LX + "lex_initial", 1)] = LoopSpec("lex_initial#block-comment", H + "inv_s", variant=H + "var_s", havoc=_havoc_scanner("s"), modifies=_modifies("s"), ghost=_ghost("s"))
     L[(LX + "lex_quoted_string", 0)] = LoopSpec("lex_quoted_string", H + "inv_s", variant=H + "var_quoted", havoc=_havoc_scanner("s", _havoc_quoted_c), modifies=_modifies("s"), ghost=_ghost("s"))
     L[(LX + "lex_expression", 0)] = LoopSpec("lex_expression", H + "inv_s", variant=H + "var_s", havoc=_havoc_scanner("s"), modifies=_modifies("s"), ghost=_ghost("s"))
-    setup_parser(E)
-    setup_parser_nodes(E)
     L[(SC + "scan", 0)] = LoopSpec("Scanner.scan#driver", H + "inv_self", variant=H + "var_self", havoc=_havoc_scanner("self"), modifies=_modifies("self"), ghost=_ghost("self"))
 
 
@@ -184,15 +182,18 @@ def _ghost_parser(I, st):
     return {"pos0": I.hget(st, st.env["p"]).fields["pos"]}
 
 
-def setup_parser(E):
+def parser_specs(E):
+    """-> (contracts, loop specs) of the parser proof, attached per case (so that other properties can run the same cases)"""
     from vf.pyvc.loops import LoopSpec
     _check_model_table(E)
-    for name in PARSER_TABLE:
-        E.I.contracts[PSQ + name] = PM + name + "_model"
-    L = E.I.loop_specs
+    C = {PSQ + name: PM + name + "_model" for name in PARSER_TABLE}
+    L = {}
     for fn, lists, dicts in (("parse_macro_definition_args", ("args",), ()), ("parse_expression_list_inner", ("expressions",), ()), ("parse_map", (), ("args",)),
                              ("parse_struct", (), ("fields",)), ("parse_block", ("decl",), ()), ("parse_initial", ("statements",), ())):
         L[(PSQ + fn, 0)] = LoopSpec(fn, PH + "inv_parser", variant=PH + "var_parser", havoc=_havoc_parser(lists, dicts), modifies=_modifies_parser(lists + dicts), ghost=_ghost_parser)
+    L[("a816.parse.ast.nodes.DataNode.__init__", 0)] = LoopSpec("DataNode.__init__", PH + "inv_true", havoc=_havoc_datanode, item=_datanode_items,
+                                                                 modifies=lambda I, st: {I.hget(st, st.env["self"]).fields["data"].oid})
+    return C, L
 
 
 def _datanode_items(I, st):
@@ -215,18 +216,14 @@ def shape_parser(name):
 
     def sh(B):
         p = B.inst("a816.parse.parser.Parser", tokens=B.symtokens("tokens"), pos=B.int("pos"), initial_state=None)
-        return {"p": p, "fn": B.func(PSQ + name), "rank": rank, "delta": delta, "eof_raises": eof, "no_include": name in ("parse_keyword",), "lenient": lenient}
+        return {"p": p, "fn": B.func(PSQ + name), "rank": rank, "delta": delta, "eof_raises": eof, "no_include": name in ("parse_keyword",), "lenient": lenient,
+                "consumes_all": name == "parse_initial"}
     return sh
 
 
-def setup_parser_nodes(E):
-    from vf.pyvc.loops import LoopSpec
-    E.I.loop_specs[("a816.parse.ast.nodes.DataNode.__init__", 0)] = LoopSpec("DataNode.__init__", PH + "inv_true", havoc=_havoc_datanode, item=_datanode_items,
-                                                                              modifies=lambda I, st: {I.hget(st, st.env["self"]).fields["data"].oid})
-
-
 def parser_cases(E):
-    return [Case(PH + "parser_function_contract", name, shape_parser(name), target=[PSQ + name], timeout_ms=30000, group="parser") for name in PARSER_TABLE]
+    C, L = parser_specs(E)
+    return [Case(PH + "parser_function_contract", name, shape_parser(name), target=[PSQ + name], timeout_ms=30000, group="parser", contracts=C, loop_specs=L) for name in PARSER_TABLE]
 
 
 from vf.props import expansion as _exp  # noqa: E402
